@@ -1,0 +1,9 @@
+//go:build verif
+
+package hrpc
+
+// Contracts for the deductive verifier in /verif (gowp). This file contains comments only; the
+// build tag `verif` adds no code. Syntax: /verif/DESIGN.md section 2.2.
+
+//@ func hrpc.cellFromCellBlock
+//@   panics never[C11]
